@@ -213,6 +213,9 @@ func OpenDB(args ...interface{}) (massdb.MassDB, error) {
 	if !ok {
 		return nil, ErrDBWrongType
 	}
+	if err = hmB.matchArgs(pubKey, bitLength); err != nil {
+		return nil, err
+	}
 
 	var hmA *HashMapA
 	hmA = nil
@@ -224,6 +227,9 @@ func OpenDB(args ...interface{}) (massdb.MassDB, error) {
 		hmA, ok = hmAi.(*HashMapA)
 		if !ok {
 			return nil, ErrDBWrongType
+		}
+		if err = hmA.matchArgs(pubKey, bitLength); err != nil {
+			return nil, err
 		}
 	}
 
@@ -266,6 +272,12 @@ func CreateDB(args ...interface{}) (massdb.MassDB, error) {
 	hmB, ok := hmBi.(*HashMapB)
 	if !ok {
 		return nil, ErrDBWrongType
+	}
+	if err = hmA.matchArgs(pubKey, bitLength); err != nil {
+		return nil, err
+	}
+	if err = hmB.matchArgs(pubKey, bitLength); err != nil {
+		return nil, err
 	}
 
 	return &MassDBV1{
